@@ -163,7 +163,7 @@ theorem C14_reachable (s : Sys) (l : List Step) (h : s.reward.Inv) : (s.steps l)
     (by
       intro x m x' ms hp hx
       cases handle_touch x x' m ms hx with
-      | none h _ _ => rw [h.reward]; exact hp
+      | none h _ _ _ => rw [h.reward]; exact hp
       | hub s1 sender funds hm _ _ _ hx' b t r d g => rw [r]; exact hp
       | bsei s1 sender funds tm _ _ hx' h t r d g => rw [r]; exact hp
       | stsei blk sender funds tm _ hx' h b r d g => rw [r]; exact hp
